@@ -3,7 +3,7 @@ CONSTANTS
   MaxFields = @MAXFIELDS@
   Namespaces = @NAMESPACES@
   NameMenu <- @NAMEMENU@
-  UnionMenu <- MCUnionMenu
+  UnionMenu <- @UNIONMENU@
   FuncNames = @FUNCNAMES@
   FieldNames <- @FIELDNAMES@
   Kinds <- @KINDS@
